@@ -408,7 +408,8 @@ def m_directive(st):
 def m_version(st):
     if not st.claim("version"):
         return
-    v, ok = st.rng.choice([((0, 0), False), ((0, 1), True), ((255, 255), True), ((256, 0), False), ((0, 256), False), ((1, 0), True)])
+    v, ok = st.rng.choice([((0, 0), False), ((0, 1), True), ((255, 255), True), ((256, 0), False), ((0, 256), False), ((1, 0), True),
+                          ((1, -1), False), ((255, -1), False), ((-1, 0), False), ((0, -1), False), ((-1, 1), False), ((2, 256), False)])
     st.version = v
     st.add("version-%d.%d" % v, ok)
 
